@@ -94,9 +94,9 @@ VALUES = {
     "log_level": (("DEBUG", True), ("WARNING", True), ("debug", False), ("LOUD", False), ("", False)),
     "output_format": (("json", True), ("yaml", True), ("xml", False), ("TEXT", False)),
     "max_retries": (("5", True), ("0", True), ("-1", False), ("abc", False), ("1.5", False), ("true", None)),
-    "timeout": (("2.5", True), ("10", True), ("0", False), ("-3", False), ("soon", False)),
+    "timeout": (("2.5", True), ("10", True), ("0", False), ("-3", False), ("soon", False), ("1e999", None), ("inf", None), ("nan", None)),
     "app_name": (("my-app", True), ("  ", False)),
-    "greeting": (("Hi there", True), ("42", True), ("true", True)),
+    "greeting": (("Hi there", True), ("42", True), ("true", True), ("nan", None), ("-inf", None)),
     "brand_new_key": (("anything", True), ("7", True)),
 }
 
@@ -139,13 +139,14 @@ def h_config_set(ctx):
             return
         saved = yaml.safe_load(after.decode()) if fmt == "yaml" else json.loads(after.decode())
         ctx.require("written-file-passes-validation", validate_config(saved)[0], saved=saved)
-        ctx.require("value-survives-save-and-load", saved.get(key) == _converted(value) and type(saved.get(key)) is type(_converted(value)),
-                    key=key, value=value, got=saved.get(key))
+        cv = _converted(value)
+        same = saved.get(key) == cv or (isinstance(cv, float) and cv != cv and saved.get(key) != saved.get(key))     # nan == nan
+        ctx.require("value-survives-save-and-load", same and type(saved.get(key)) is type(cv), key=key, value=value, got=saved.get(key))
         if start == "customised":
-            ctx.require("other-settings-kept", saved.get("user_note") == "keep me" and saved.get("timeout") == (12.5 if key != "timeout" else _converted(value)),
-                        saved=saved)
+            ctx.require("other-settings-kept", saved.get("user_note") == "keep me" and (key == "timeout" or saved.get("timeout") == 12.5)
+                        and (key == "greeting" or saved.get("greeting") == "Yo"), saved=saved)
         g = _invoke(["--config", str(f), "config", "get", key], d)
-        ctx.require("config-get-returns-the-value", g.exit_code == 0 and g.output.strip() == str(_converted(value)), out=g.output, want=str(_converted(value)))
+        ctx.require("config-get-returns-the-value", g.exit_code == 0 and g.output.strip() == str(cv), out=g.output, want=str(cv))
     finally:
         shutil.rmtree(d, True)
 
